@@ -264,10 +264,13 @@ def run_apalache(module, init, inv, length, timeout=600, cinit=None):
     d = scratch("apalache_" + module)
     try:
         shutil.copy(os.path.join(SPEC, module + ".tla"), d)
+        jt = os.path.join(d, "jtmp")
+        os.makedirs(jt, exist_ok=True)
         t0 = time.time()
         try:
             p = subprocess.run(["apalache-mc", "check"] + (["--cinit=" + cinit] if cinit else []) + ["--init=" + init, "--inv=" + inv, "--length=%d" % length, "--out-dir=" + os.path.join(d, "out"),
-                                module + ".tla"], cwd=d, stdout=subprocess.PIPE, stderr=subprocess.STDOUT, text=True, timeout=timeout)
+                                module + ".tla"], cwd=d, stdout=subprocess.PIPE, stderr=subprocess.STDOUT, text=True, timeout=timeout,
+                               env=dict(os.environ, TMPDIR=jt))      # SANY unpacks the standard modules there (one directory per run, never removed)
         except subprocess.TimeoutExpired:
             raise Broken("apalache-mc timed out on %s (%s => %s)" % (module, init, inv))
         if "EXITCODE: OK" not in p.stdout:
